@@ -9,6 +9,7 @@ import z3
 
 from ..base import Harness
 from ..core import deep_eq
+from .. import core
 from ..symstr import domain_U, domain_D, SymStr
 from ..oracles import dtspec as O
 
@@ -21,13 +22,13 @@ LENS = {
               'string-list': 4, 'string': 3, 'null': 3,
               'inet-address': 5, 'inet-binding-address': 4, 'inet-connection-address': 4,
               'socket-address': 4, 'socket-binding-address': 3, 'socket-connection-address': 4,
-              'ipaddr-or-hostname': 5, 'registry-name': 7},
+              'ipaddr-or-hostname': 5, 'registry-name': 7, 'float': 3, 'timedelta': 4},
     'thorough': {'basic-key': 8, 'identifier': 8, 'dotted-name': 8, 'dotted-suffix': 8,
                  'boolean': 6, 'integer': 6, 'port-number': 7, 'byte-size': 6, 'time-interval': 6,
                  'string-list': 6, 'string': 4, 'null': 4,
                  'inet-address': 7, 'inet-binding-address': 6, 'inet-connection-address': 6,
                  'socket-address': 6, 'socket-binding-address': 5, 'socket-connection-address': 6,
-                 'ipaddr-or-hostname': 8, 'registry-name': 9},
+                 'ipaddr-or-hostname': 8, 'registry-name': 9, 'float': 6, 'timedelta': 6},
 }
 
 
@@ -50,14 +51,17 @@ class C09(Harness):
              'input string against reference contracts; plus unbounded regex-language equality '
              '(z3 regex theory) of the live patterns')
     functions = ('ZConfig.datatypes.',)
-    stubs = ('socket.inet_pton(AF_INET6, s) -> pure-Python RFC 4291 validator '
+    stubs = ('float(str) -> exact rational model (vf.symstr.sym_float); datetime.timedelta -> exact rational model',
+             'socket.inet_pton(AF_INET6, s) -> pure-Python RFC 4291 validator '
              '(vf.oracles.dtspec.is_ipv6), cross-checked against the C function on every '
              'replayed witness',)
     assumptions = (
         'per-type length bounds (see bounds); longer strings are outside the bounded claim; the '
         'regex-based types additionally have an unbounded language-equality proof (E2)',
-        'float, timedelta arithmetic, locale and existing-* depend on C/OS semantics and are outside '
-        'the claim',
+        'float and timedelta: float() is modelled as the EXACT rational value of the decimal literal and '
+        'datetime.timedelta as exact rational arithmetic with CPython\'s NaN / infinity / range errors; binary '
+        'rounding is outside the model, values are compared with a tolerance (1e-12 relative, 1 microsecond); '
+        'locale and existing-* depend on OS state and are outside the claim',
         'domain D for case-mapping converters excludes characters whose lower() is an ASCII letter '
         'or changes length (KELVIN SIGN, U+0130, ...)',
         "don't-care regions (documentation silent): inet-address strings containing brackets that "
@@ -170,6 +174,15 @@ class C09(Harness):
                 return ('ValueError',)
             except TypeError:
                 return ('TypeError',)
+            if dt == 'float':
+                kind, val = core.float_parts(v)
+                return ('ok', ('fin', core.Approx(val, 0, '1/1000000000000')) if kind == 'fin' else ('nonfinite', kind))
+            if dt == 'timedelta':
+                if isinstance(v, instr.SymTimedelta):
+                    return ('ok', core.Approx(v.total, '1/1000000', '1/1000000000000'))
+                import fractions
+                return ('ok', core.Approx(fractions.Fraction((v.days * 86400 + v.seconds) * 10 ** 6 + v.microseconds,
+                                                             10 ** 6), '1/1000000', '1/1000000000000'))
             if dt.startswith('socket-'):
                 import socket
                 fam = {socket.AF_UNIX: 'AF_UNIX', socket.AF_INET: 'AF_INET',
@@ -207,6 +220,10 @@ class C09(Harness):
             return ('ValueError',)
         except O.DontCare:
             return ('any',)
+        except O.TypeErr:
+            return ('TypeError',)
+        except O.AnyError:
+            return ('any-error',)
         if dt in O.KEY_NORMALISERS:
             return ('ok', v, v)
         return ('ok', v)
@@ -214,6 +231,8 @@ class C09(Harness):
     def agree(self, unit, real, exp):
         if exp[0] == 'any':
             return z3.BoolVal(real[0] in ('ok', 'ValueError'))
+        if exp[0] == 'any-error':
+            return z3.BoolVal(real[0] in ('TypeError', 'ValueError'))
         return deep_eq(real, exp)
 
     def classify(self, unit, real):
